@@ -25,7 +25,7 @@ func (c11) ID() string     { return "C11" }
 func (c11) Level() string  { return "exploration" }
 func (c11) QuickRuns() int { return 60000 }
 func (c11) Rule() string {
-	return "2-8 concurrent protocol-level runs of mixed protocols to the same or different targets, and RunTraceroute requests with 1-4 runs plus 0-6 (occasionally 50) end-to-end probes, all on one simulated wire where every capture handle sees every inbound packet (and, per knob, every outgoing probe); every flow has its own router addresses so cross-talk is visible; IP-ID and echo-id allocators start at seeded bases near their wrap points; each run must equal the reference fold of its own genuine replies, and identifiers of simultaneously live runs must be disjoint; non-trivial = at least two endpoints were live at the same time and one of them read a packet caused by another; distinct = distinct shapes"
+	return "2-8 concurrent protocol-level runs of mixed protocols to the same or different targets, and RunTraceroute requests with 1-4 runs plus 0-6 (occasionally 50) end-to-end probes, all on one simulated wire where every capture handle sees every inbound packet (and, per knob, every outgoing probe); every flow has its own router addresses so cross-talk is visible; SACK runs may share one target address:port with SYN-ACKs delayed until every handle is open (overlapping handshakes), and the simulated target answers probes outside its connection's window with a bare ACK; IP-ID and echo-id allocators start at seeded bases near their wrap points; each run must equal the reference fold of its own genuine replies, and identifiers of simultaneously live runs must be disjoint; non-trivial = at least two endpoints were live at the same time and one of them read a packet caused by another; distinct = distinct shapes"
 }
 func (c11) Assumptions() []string {
 	return []string{"UDP and TCP SYN run with strict quoted-source checking (relaxed mode cannot tell apart flows that differ only in their source, by its definition)", "SACK targets are distinct loopback listeners; their ISNs are at least 2^20 apart, as kernel ISNs are"}
